@@ -8,14 +8,15 @@
 // written from the property statement.
 //
 // Case kinds:
-//   hist-*   random histories in direct mode (heights walk through window edges start+L-1, start+L,
-//            start+L+1 of all four periods; amounts around the remaining allowance, the limit, the
-//            balance, tax rounding boundaries, up to 2^256-1)
-//   edges    bounded enumeration: period x offset from window start x amount relative to the
-//            remaining allowance x sender kind
-//   taxgrid  bounded enumeration: rate notation x amount boundary x exemption
-//   flow     ABCI mode: real governance proposals (submit/vote/tally), signed txs through ante,
-//            batch built by the end-blocker, executed-batch claims by the validators -> burn
+//
+//	hist-*   random histories in direct mode (heights walk through window edges start+L-1, start+L,
+//	         start+L+1 of all four periods; amounts around the remaining allowance, the limit, the
+//	         balance, tax rounding boundaries, up to 2^256-1)
+//	edges    bounded enumeration: period x offset from window start x amount relative to the
+//	         remaining allowance x sender kind
+//	taxgrid  bounded enumeration: rate notation x amount boundary x exemption
+//	flow     ABCI mode: real governance proposals (submit/vote/tally), signed txs through ante,
+//	         batch built by the end-blocker, executed-batch claims by the validators -> burn
 package c15
 
 import (
